@@ -52,6 +52,47 @@ register("C05", "proof",
          "contract: table cost == spec function (BFS optimum); exhaustive over (configuration, class id); known-findings protocol",
          "DESIGN.md 5 (C05), 6")
 
+E2E_NOTE = (" The sign-free pipeline is covered for all inputs by the contract chain C06 (class id) -> C17 (table entry) -> C16 (layer search sound and "
+            "complete, gate word) with lemma K4; the top-level contract is additionally evaluated by the independent tableau oracle on completely "
+            "enumerated domains for n<=3 (n<=4 thorough: all 2295 groups x all 16 sign vectors x 4 connectivities) and on every class with seeded "
+            "members for n=5,6 (labelled BOUNDED in the evidence, not counted).")
+
+register("C01", "proof",
+         "Top-level postcondition of get_preparation_circuit transcribed from the property (each given signed Pauli lies with sign + in the signed "
+         "stabilizer group of circuit|0>), decided by an independent signed-tableau oracle." + E2E_NOTE +
+         " The sign-repair step is qiskit object manipulation without a contract within reach of a symbolic proof, hence decided by exhaustive "
+         "evaluation for n<=4 and bounded for n=5,6.",
+         TRUST + " Q1-Q3 assumed for qiskit. n=5,6 sign step: bounded stand-in.",
+         "top-level contract vs independent tableau oracle, exhaustive over all stabilizer groups x sign vectors for n<=4 (GROUND); bounded n=5,6",
+         "DESIGN.md 5 (C01, C03)")
+
+register("C03", "proof",
+         "Top-level postcondition of get_readout_circuit (every group element conjugates to a Z-type Pauli; inverse prepares the state mod signs) "
+         "decided by the oracle on ALL stabilizer groups for n<=4 (n<=5 thorough); sign-independence proved as a frame condition by running the "
+         "real function on a Stabilizer whose .phases raises (representation hiding)." + E2E_NOTE,
+         TRUST + " Q3 assumed.", "top-level contract vs tableau oracle on all groups n<=4(5); frame by representation-hiding stub", "DESIGN.md 5 (C01, C03)")
+
+register("C04", "proof",
+         "Cost/depth of every delivered preparation and readout circuit equals the lookup metadata of the oracle-determined LC class (so members of a "
+         "class agree), metadata equals the table circuit's actual count/depth for all 7326 entries, and the preparation circuit is (X gates) followed "
+         "by the inverse readout circuit (sign repair adds no two-qubit gate)." + E2E_NOTE,
+         TRUST + " M9 (depth invariant under reversal / single-qubit gates).", "cost/depth contract vs lookup metadata; exhaustive n<=4 + all table entries", "DESIGN.md 5 (C04)")
+
+register("C02", "proof",
+         "Coupling graphs equal the documented edge table (all 20), every table and MUB circuit keeps its two-qubit gates on edges (all lines), the layer "
+         "synthesiser emits only single-qubit gates (all blocks x positions), and every circuit produced on the C01 domain, by compression and by the "
+         "tomography composition onto measured-qubit lists is scanned. Lemma: delivered = table circuit + single-qubit gates, possibly inverted.",
+         TRUST + " Q3/Q4 (compose/inverse/InverseCancellation keep qubit pairs) observed, not proved; measured-qubit lists seeded (bounded).",
+         "frame contracts + exhaustive enumeration of tables/MUB files/coupling graphs; end-to-end scan", "DESIGN.md 5 (C02)")
+
+register("C07", "other",
+         "The property quantifies over all gate sequences of unbounded length. Within this family it is decided as: a frame obligation on the real AST "
+         "(the argument is used only through Stabilizer(circuit) and as the sign reference), which reduces the claim to C01/C02/C04 for all signed "
+         "stabilizer states UNDER the assumed qiskit contract Q1 (StabilizerState tableau semantics). Q1 and the top-level contract are evaluated by the "
+         "oracle on all circuits of <=2 gates on 2-3 qubits and on seeded long circuits for all 20 configurations (bounded).",
+         "Q1 is an assumed contract of a dependency, validated only on the listed circuits; the unbounded quantifier is therefore proved relative to Q1 only.",
+         "frame obligation + reduction lemma under assumed dependency contract; exhaustive small / seeded long circuits against tableau oracle", "DESIGN.md 5 (C07)")
+
 NOT_APPLICABLE = []   # every property is claimed; sub-claims outside the family's reach are labelled in the evidence
 
 
